@@ -751,24 +751,73 @@ func SortedKeys[V any](m map[string]V) []string {
 // simplifications re-applied, down to the given depth. It is used to read
 // back values the generator itself stored (e.g. variadic argument arrays).
 func (s *Script) Resolve(t *Term, depth int) *Term {
-	if depth <= 0 {
+	budget := depth * 40
+	return s.resolve(t, &budget)
+}
+
+// resolve expands defined constants lazily: a select peels the store chain of
+// its array one definition at a time, a sat peels the supd chain of its
+// sequence, so the cost is linear in the length of the chain.
+func (s *Script) resolve(t *Term, budget *int) *Term {
+	if *budget <= 0 {
 		return t
 	}
+	*budget--
 	if len(t.Args) == 0 {
 		if d, ok := s.Defs[t.Op]; ok {
-			return s.Resolve(d, depth-1)
+			return s.resolve(d, budget)
 		}
 		return t
 	}
 	switch t.Op {
 	case "select":
-		return Select(s.Resolve(t.Args[0], depth-1), s.Resolve(t.Args[1], depth-1))
+		arr := t.Args[0]
+		idx := s.resolve(t.Args[1], budget)
+		for *budget > 0 {
+			*budget--
+			if len(arr.Args) == 0 {
+				d, ok := s.Defs[arr.Op]
+				if !ok {
+					break
+				}
+				arr = d
+				continue
+			}
+			if arr.Op != "store" {
+				break
+			}
+			k := s.resolve(arr.Args[1], budget)
+			if k.String() == idx.String() || sameRef(k, idx) {
+				return s.resolve(arr.Args[2], budget)
+			}
+			if distinctRefs(k, idx) {
+				arr = arr.Args[0]
+				continue
+			}
+			break
+		}
+		return Select(arr, idx)
 	case "sat":
-		return SAt(s.Resolve(t.Args[0], depth-1), s.Resolve(t.Args[1], depth-1))
+		sq := s.resolve(t.Args[0], budget)
+		i := s.resolve(t.Args[1], budget)
+		for sq.Op == "supd" && *budget > 0 {
+			*budget--
+			j := s.resolve(sq.Args[1], budget)
+			x, ok1 := i.IsIntLit()
+			y, ok2 := j.IsIntLit()
+			if !ok1 || !ok2 {
+				break
+			}
+			if x == y {
+				return s.resolve(sq.Args[2], budget)
+			}
+			sq = s.resolve(sq.Args[0], budget)
+		}
+		return SAt(sq, i)
 	case "store", "supd", "ssub", "+", "-":
 		args := make([]*Term, len(t.Args))
 		for i, a := range t.Args {
-			args[i] = s.Resolve(a, depth-1)
+			args[i] = s.resolve(a, budget)
 		}
 		switch t.Op {
 		case "+":
